@@ -263,6 +263,11 @@ class SymV:
         self.interp.call_contracts[id(key)] = CallContract(name, requires, result)
         self.interp.stub_objs[("con", id(key))] = key
 
+    def override_global(self, module_name, name, value):
+        """interpreted code of `module_name` sees `value` for its global `name` (e.g. default_units -> unit abstraction)"""
+        from .interp import Frame
+        Frame.overrides[(module_name, name)] = value
+
     def events(self, kind=None):
         return [e for e in self.path.events if kind is None or e[0] == kind]
 
